@@ -130,8 +130,9 @@ def oracle_layout(ctx, L, args, label):
     tables = list(L.static_traps.items()) + list(L.special_grid.items())
     for n, g in tables:
         zid = L.get_zone_id(g)
-        tab = L.static_traps if zid in L.static_traps else L.special_grid
-        if zid is None or zid not in tab or not (tab[zid] == g):
+        # a name may be used in both tables (for different grids): the index is coherent if the name maps back in either
+        back = [t[zid] for t in (L.static_traps, L.special_grid) if zid in t]
+        if zid is None or not any(b == g for b in back):
             ctx.fail({"kind": "zone-index", "layout": label.split("(")[0], "zone": n, "lookup": zid}, rep,
                      f"{label}: get_zone_id(grid of {n!r}) = {zid!r}, which does not map back to that grid")
     for (n1, g1), (n2, g2) in itertools.combinations(tables, 2):
